@@ -189,12 +189,12 @@ func c14Run(c *Ctx, idx int) CaseResult {
 	for i := 0; i < 1+r.Intn(2); i++ {
 		o.Executed = r.Intn(2) == 0
 		p := store.RandPlan(r, o)
+		model.Create(p) // before the call: a vault may write into the plan it is given
 		if err := h.Vault.Create(ctx, p); err != nil {
 			res.Verdict = "inconclusive"
 			res.Note = "background Create failed: " + err.Error()
 			return res
 		}
-		model.Create(p)
 		ids = append(ids, p.ID)
 	}
 	othersIntact("after creating the background plans")
@@ -248,11 +248,12 @@ func c14Run(c *Ctx, idx int) CaseResult {
 	case 1: // uniqueness
 		o.Executed = r.Intn(2) == 0
 		p1 := store.RandPlan(r, o)
+		model.Create(p1)
 		if err := h.Vault.Create(ctx, p1); err != nil {
+			model.Delete(p1.ID)
 			add("create-error", "", "Create failed: %v", err)
 			break
 		}
-		model.Create(p1)
 		ids = append(ids, p1.ID)
 		p2 := store.RandPlan(r, o)
 		p2.ID = p1.ID
@@ -282,11 +283,12 @@ func c14Run(c *Ctx, idx int) CaseResult {
 			if r.Intn(2) == 0 || len(ids) == 0 {
 				o.Executed = r.Intn(2) == 0
 				p := store.RandPlan(r, o)
+				model.Create(p)
 				if err := h.Vault.Create(ctx, p); err != nil {
+					model.Delete(p.ID)
 					add("create-error", "", "Create failed: %v", err)
 					break
 				}
-				model.Create(p)
 				ids = append(ids, p.ID)
 				trace = append(trace, "create")
 				continue
@@ -360,12 +362,18 @@ func c14KillChild() int {
 		}
 		fmt.Fprintf(jf, "TRY %s\n", p.ID)
 		jf.Sync()
+		// hash and counts of the plan as submitted, taken before the call
+		var cnt map[string]int
+		hash := ""
+		if i != dieAt {
+			cnt = store.Canon(p).Count(nil)
+			hash = canonHash(store.Canon(p))
+		}
 		if err := h.Vault.Create(ctx, p); err != nil {
 			fmt.Fprintf(jf, "ERR %s %v\n", p.ID, err)
 			continue
 		}
-		cnt := store.Canon(p).Count(nil)
-		fmt.Fprintf(jf, "ACK %s %s %d %d %d %d\n", p.ID, canonHash(store.Canon(p)), cnt["block"], cnt["checks"], cnt["seq"], cnt["action"])
+		fmt.Fprintf(jf, "ACK %s %s %d %d %d %d\n", p.ID, hash, cnt["block"], cnt["checks"], cnt["seq"], cnt["action"])
 		jf.Sync()
 	}
 	fmt.Fprintf(jf, "END\n")
